@@ -266,6 +266,10 @@ func (w *srvWorld) build(k reqKind) *builtReq {
 	case k.Body == "malformed":
 		b.body = []byte(`{"inputHash":"0x1","preRoot":`)
 		b.expStat, b.expCode = 400, "malformed_body"
+	case k.Body == "huge":
+		// an over-long body that is not a parameter document (9 MiB): still a /prove request, still answered 400 malformed_body
+		b.body = bytes.Repeat([]byte("x"), 9<<20)
+		b.expStat, b.expCode = 400, "malformed_body"
 	case k.Body == "unsat":
 		b.body = w.unsatParams()
 		b.expStat, b.expCode = 400, "proving_error"
